@@ -48,8 +48,8 @@ ASSUMPTIONS = [
     "the reduced system is solved with dense numpy.linalg.solve (not part of the code under test)",
 ]
 BOUNDS = {
-    "quick": "G0 (3 cells): 36 creation/set orders x 18 whole splits x default@s1, 2 orders x all 54 splits x {default@s1, dense@s1, default@s0} at depth 1; depth 2 over 24 operations on 2 systems; G1 (md): 38 whole + 3 restricted splits x 3 at depth 1, depth 2 over 26 operations on 1 system",
-    "thorough": "G0: 36 orders x 54 splits x 4 (inverter, state) at depth 1, depth 2 over 36 operations on 6 systems, depth 3 over 9 operations on 1 system; G1: all 5494 splits x {default@s1, dense@s1, default@s0} on one system at depth 1, depth 2 over 82 operations on one system",
+    "quick": "G0 (3 cells): 36 creation/set orders x 18 whole splits x default@s1, 2 orders x all 54 splits x {default@s1, dense@s1, default@s0} at depth 1; depth 2 over 24 operations on 2 systems; G1 (md): 38 whole + 3 restricted splits x 3 at depth 1, depth 2 over 26 operations on 1 system; GX (4 variables, 9 states with equal per-row non-zero counts in different columns): depth 2 over 15 operations on 1 system",
+    "thorough": "G0: 36 orders x 54 splits x 4 (inverter, state) at depth 1, depth 2 over 36 operations on 6 systems, depth 3 over 9 operations on 1 system; G1: all 5494 splits x {default@s1, dense@s1, default@s0} on one system at depth 1, depth 2 over 82 operations on one system; GX: depth 2 over 27 operations (3 splits x 9 states) on 2 systems",
 }
 MIN_CLASSES = 4
 CHUNK = 1
@@ -105,6 +105,16 @@ def cases(tier):
         alpha = _hist_alphabet(grid, vo, eo, rich)
         for first in alpha:
             out.append({"sys": [grid, vo, eo], "prefix": [first], "alphabet": alpha, "depth": 2})
+    # ---- depth 2 on GX: same / equally shaped secondary blocks whose non-zeros sit in
+    # different columns with identical counts per row (which coupling vanishes in which cell)
+    for vo, eo in ([("abcd", "abcd"), ("dbca", "cadb")] if rich else [("dbca", "cadb")]):
+        sp = gs.swap_splits(vo, eo)
+        alpha = [{"split": sp[0], "inv": "default", "state": st} for st in gs.SWAP_STATES]
+        for s_ in sp[1:]:
+            sts = gs.SWAP_STATES if rich else ["tf", "t010", "t101"]
+            alpha += [{"split": s_, "inv": "default", "state": st} for st in sts]
+        for first in alpha:
+            out.append({"sys": ["GX", vo, eo], "prefix": [first], "alphabet": alpha, "depth": 2})
     # ---- depth 3 on G0 (thorough): one case per first two operations
     if rich:
         vo, eo = "cab", "bca"
@@ -140,7 +150,8 @@ class Run:
             var_arg = L.var_arg(split, variant)
         except Exception as e:  # harness
             raise RuntimeError(f"harness: cannot build arguments for {split}: {e!r}")
-        state = L.states[op["state"]].copy() if (op["state"] == "s0" or variant % 2) else None  # s1 is also in storage
+        # the state kept in storage is passed explicitly or implicitly, all others explicitly
+        state = L.states[op["state"]].copy() if (op["state"] != L.stored_key or variant % 2) else None
         state_before = None if state is None else state.copy()
         try:
             S, rhs = L.es.assemble_schur_complement_system(
@@ -175,7 +186,7 @@ def run_case(case) -> Outcome:
 
     # dense references of this (deterministic) system
     L0 = gs.LocalSystem(*sysid)
-    full = {sk: L0.full(sk) for sk in ("s0", "s1")}
+    full = {sk: L0.full(sk) for sk in L0.states}
     for sk, (J, r) in full.items():
         if J.shape[0] != J.shape[1] or J.shape[0] != L0.N or not np.linalg.cond(J) < 1e6:
             raise RuntimeError("harness: full system is not square and well conditioned")
@@ -242,6 +253,8 @@ def run_case(case) -> Outcome:
                 cls += "/same-split" + ("" if prev["state"] == op["state"] else "-other-state")
             else:
                 cls += "/other-split" + ("/size-change" if admissible(prev)["ns"] != info["ns"] else "")
+        if sysid[0] == "GX" and len(st.hist) >= 2:
+            cls += "/swap-columns" if st.hist[-2]["state"] != op["state"] else "/same-state"
         restricted = any(sorted(r) != gs.eq_ranks(sysid[0], e) for e, r in op["split"]["eqs"])
         cls += "/restricted" if restricted else "/whole"
         bad = False
